@@ -31,11 +31,20 @@ HERE = os.path.dirname(os.path.dirname(os.path.abspath(__file__)))
 SRC = "/repo/src/chmpy"
 
 
-def functions_of(pid):
+def functions_of(pid, core=True):
+    """Functions to mutate: with core=True those that carry an obligation of one of the property's own rules (evidence
+    coverage.obligation_sites, without the cache-scope / aliasing / closure rules R<nn>.9/.12/.13/.20 that look at every method of a class),
+    otherwise every function the check looked at."""
     ev = json.load(open(os.path.join(HERE, "evidence", f"{pid}.json")))
     out = {}
-    for f in ev["coverage"]["analysed"]["functions"]:
+    if core and "obligation_sites" in ev["coverage"]:
+        generic = {f"R{pid[1:]}.{k}" for k in (9, 12, 13, 20)}
+        names = [s for s, rules in ev["coverage"]["obligation_sites"].items() if set(rules) - generic]
+    else:
+        names = ev["coverage"]["analysed"]["functions"]
+    for f in names:
         rel, _, qual = f.partition(":")
+        rel = rel[len("src/chmpy/"):] if rel.startswith("src/chmpy/") else rel
         if rel.endswith(".py") and qual and not qual.startswith("<"):
             out.setdefault(rel, set()).add(qual)
     return out
@@ -156,11 +165,12 @@ def main():
     ap.add_argument("--max", type=int, default=0)
     ap.add_argument("--tests", action="store_true")
     ap.add_argument("--jobs", type=int, default=14)
+    ap.add_argument("--all-functions", action="store_true", help="mutate every function the check looked at, not only the obligation sites")
     a = ap.parse_args()
     os.makedirs(os.path.join(HERE, "audit", "mutants"), exist_ok=True)
     for pid in a.pids:
         jobs = []
-        for rel, quals in sorted(functions_of(pid).items()):
+        for rel, quals in sorted(functions_of(pid, core=not a.all_functions).items()):
             path = os.path.join(SRC, rel)
             if not os.path.exists(path):
                 continue
